@@ -72,9 +72,10 @@ def grd_width(ctx, roots, clause):
 
 
 # ---------------------------------------------------------------------- IDX-1
-def row_index_of(value):
+def row_index_of(value, frames=()):
     """Decompose a yielded column expression into (column expr, row index expr, operator)
-    or (column expr, None, None) when the column is yielded un-indexed."""
+    or (column expr, None, None) when the column is yielded un-indexed.  ``frames``: names that are frames
+    (the receiver, frame parameters): frame[name] is a column lookup, not a row selection."""
     v = value
     # strip trailing .copy()
     while isinstance(v, ast.Call) and isinstance(v.func, ast.Attribute) and v.func.attr in ("copy",) and not v.args:
@@ -82,6 +83,8 @@ def row_index_of(value):
     if isinstance(v, ast.Call) and isinstance(v.func, ast.Attribute) and isinstance(v.func.value, ast.Name) \
             and v.func.value.id == "np" and v.func.attr in ("take", "delete") and len(v.args) >= 2:
         return v.args[0], v.args[1], v.func.attr
+    if isinstance(v, ast.Subscript) and isinstance(v.value, ast.Name) and v.value.id in frames:
+        return v, None, None
     if isinstance(v, ast.Subscript):
         return v.value, v.slice, "index"
     return v, None, None
@@ -137,7 +140,7 @@ def idx1(ctx, fn, clause, expect_ops=None, rule="IDX-1"):
     for _, (loop, items) in by_loop.items():
         idxs = set()
         for y in items:
-            colexpr, idx, op = row_index_of(y.value.elts[1])
+            colexpr, idx, op = row_index_of(y.value.elts[1], frames=tuple(fn.all_params))
             if idx is None:
                 continue
             count += 1
